@@ -30,6 +30,7 @@ _mon = sys.monitoring
 TOOL_ID = _mon.DEBUGGER_ID
 _installed = {'tool': False, 'codes': {}}
 _current = [None]          # the Sched whose run is in progress
+_free_hook = [None]        # uncontrolled mode: called at every instrumented line
 
 
 class Abort(BaseException):
@@ -41,6 +42,9 @@ class Abort(BaseException):
 def _on_line(code, line):
     s = _current[0]
     if s is None:
+        hook = _free_hook[0]
+        if hook is not None:
+            hook()
         return
     t = s.by_ident.get(threading.get_ident())
     if t is None:
